@@ -393,8 +393,9 @@ def _det(ctx, p, rng, log=False):
             a[0, pp] = [Tm, Tm.T, np.diag(np.diag(Tm))][k]
     if log:
         for pp in range(P):
-            if np.linalg.det(a[0, pp]) < 0:
-                a[:, pp, 0, :] *= -1          # the statement's logdet needs det > 0
+            if np.linalg.det(a[0, pp]) < 0 and rng.random() < 0.5:
+                a[:, pp, 0, :] *= -1          # positive determinants, and negative ones: logdet is log|det| (numpy.linalg.slogdet(A)[1], what
+                                              # algopy.logdet returns for a plain array), smooth wherever det != 0
         # determinants that over/underflow a double although log(det) is harmless
         a = a * (10.0 ** float([0, 0, -90, 90, -40][int(rng.integers(5))]))
     else:
@@ -428,7 +429,7 @@ def _det(ctx, p, rng, log=False):
             lk = O.taylor_coeffs(mp.log, mp.mpf(1), D - 1)
             ref = O.compose(lk, ds)
             mj = O.compose([abs(v) for v in lk], [mp.mpf(1)] + ms[1:])
-            log_d0 = mp.log(mp.mpf(d0.numerator)) - mp.log(mp.mpf(d0.denominator))
+            log_d0 = mp.log(mp.mpf(abs(d0.numerator))) - mp.log(mp.mpf(d0.denominator))
             ref[0] = ref[0] + log_d0
             mj[0] = abs(log_d0) + ms[0]
             worst_p = O.err_over_maj(list(got), ref, mj)
